@@ -306,12 +306,17 @@ class ProcessingItemBase:
     def _parse_condition_linking(
         cls, d: dict[str, Any], op_name: str
     ) -> Callable[[Iterable[bool]], bool] | None:
-        condition_linking = {
+        condition_linking: dict[str | None, Callable[[Iterable[bool]], bool] | None] = {
             "or": any,
             "and": all,
             None: None,
         }
-        return condition_linking.get(d.get(op_name, None))
+        op = d.get(op_name, None)
+        if not (op is None or isinstance(op, str)) or op not in condition_linking:
+            raise SigmaConfigurationError(
+                f"Unknown condition linking '{ op }' in '{ op_name }': must be 'and' or 'or'"
+            )
+        return condition_linking[op]
 
     @classmethod
     def _instantiate_transformation(
